@@ -52,3 +52,31 @@ int main(int argc, char **argv) {
   printf("RETURNED exhausted=%d\n", g_exhausted);
   return 0;
 }
+
+// ---- native counterparts of the stream-model API (harness/vstream.h) ----
+#include <sstream>
+#include <string>
+#include <map>
+static std::map<std::istream *, std::ostringstream *> g_src;
+extern "C" {
+std::ostream *vs_ostream_new() { return new std::ostringstream; }
+std::ostream *vs_ostream_sink() { return new std::ostringstream; }
+std::istream *vs_istream_of(std::ostream *o) { return new std::istringstream(static_cast<std::ostringstream *>(o)->str()); }
+std::istream *vs_istream_bytes(const char *p, unsigned n) { return new std::istringstream(std::string(p, n)); }
+unsigned vs_ntokens(std::ostream *o) { return static_cast<std::ostringstream *>(o)->str().size(); }
+unsigned vs_tok_kind(std::ostream *o, unsigned i) { return 0; }
+unsigned long vs_tok_val(std::ostream *o, unsigned i) { return (unsigned char)static_cast<std::ostringstream *>(o)->str()[i]; }
+unsigned vs_format_error(std::ostream *o) { return 0; }
+unsigned vs_rpos(std::istream *i) { return (unsigned)i->tellg(); }
+bool vs_at_end(std::istream *i) { return i->peek() == EOF; }
+void vs_truncate(std::ostream *o, unsigned n) {
+  std::ostringstream *s = static_cast<std::ostringstream *>(o);
+  std::string t = s->str();
+  if (n < t.size()) { t.resize(n); s->str(t); s->seekp(0, std::ios::end); }
+}
+bool vs_same_output(std::ostream *a, std::ostream *b) {
+  return static_cast<std::ostringstream *>(a)->str() == static_cast<std::ostringstream *>(b)->str();
+}
+void vs_arm_faults(std::ostream *o) {}
+unsigned vs_lost(std::ostream *o) { return 0; }
+}
